@@ -58,6 +58,8 @@ pub enum CidForm {
     /// a well-formed id that is NOT this client's but is derived from it (halves swapped, the same
     /// bit flipped in both halves, a single-bit near miss, bytes reversed): never listed
     Related(u8),
+    /// the all-zero uuid: a well-formed client id like any other (a client nobody has seen)
+    Nil,
     /// two X-Client-Id headers with DIFFERENT ids: this client's and one that is not on the
     /// allow-list (true: this client's id first)
     DupMixed(bool),
@@ -119,6 +121,12 @@ pub struct WireOp {
     /// encrypted) and must come back exactly as sent, so: refuse, or store the wire bytes.
     #[serde(default)]
     pub enc: u8,
+    /// an HTTP header the protocol does not use and the server has no reason to honour: 0 none,
+    /// 1 `If-None-Match: *`, 2 `If-None-Match: "<current snapshot / latest version id>"`, 3 the same as a
+    /// weak tag, 4 `If-Modified-Since` (far future), 5 `Range: bytes=0-0`, 6 `If-Match: "x"`.
+    /// Acceptable: a 4xx refusal that changes nothing, or exactly the protocol outcome
+    #[serde(default)]
+    pub extra: u8,
 }
 
 #[derive(Clone, Debug, Serialize, Deserialize, PartialEq)]
@@ -206,17 +214,18 @@ fn gen_wire_op(r: &mut Rng, n_clients: u8, page: u32, allow_big: bool) -> WireOp
             BodyForm::Normal(py, ch)
         },
         enc: 0,
+        extra: 0,
     };
     let is_post = matches!(route, Route::AddVersion | Route::AddSnapshot);
     let has_pid = matches!(route, Route::AddVersion | Route::AddSnapshot | Route::GetChild);
     for _ in 0..defects {
-        match r.weighted(&[30, if has_pid { 22 } else { 0 }, if is_post { 16 } else { 0 }, if is_post { 22 } else { 0 }, 10, if is_post { 7 } else { 0 }]) {
+        match r.weighted(&[30, if has_pid { 22 } else { 0 }, if is_post { 16 } else { 0 }, if is_post { 22 } else { 0 }, 10, if is_post { 7 } else { 0 }, 6]) {
             0 => {
                 w.cid = *r.pick(&[
                     CidForm::Absent, CidForm::Empty, CidForm::NonAscii, CidForm::HighBytes, CidForm::TooShort, CidForm::TooLong, CidForm::Garbage,
                     CidForm::Braced, CidForm::Urn, CidForm::Simple, CidForm::Upper, CidForm::Padded, CidForm::Dup,
                     CidForm::DupMixed(true), CidForm::DupMixed(false), CidForm::DupMixed(false),
-                    CidForm::Related(0), CidForm::Related(1), CidForm::Related(2), CidForm::Related(3),
+                    CidForm::Related(0), CidForm::Related(1), CidForm::Related(2), CidForm::Related(3), CidForm::Nil,
                     CidForm::LongNonAscii(0), CidForm::LongNonAscii(1), CidForm::LongNonAscii(2), CidForm::LongNonAscii(35), CidForm::LongNonAscii(33),
                 ])
             }
@@ -249,7 +258,8 @@ fn gen_wire_op(r: &mut Rng, n_clients: u8, page: u32, allow_big: bool) -> WireOp
                 };
             }
             4 => w.method = *r.pick(&[MethodForm::Swapped, MethodForm::Put, MethodForm::Delete, MethodForm::Head, MethodForm::Options, MethodForm::Patch]),
-            _ => w.enc = *r.pick(&[1u8, 2, 2, 3, 3, 4, 5, 6]),
+            5 => w.enc = *r.pick(&[1u8, 2, 2, 3, 3, 4, 5, 6]),
+            _ => w.extra = r.range(1, 6) as u8,
         }
     }
     w
@@ -271,6 +281,7 @@ pub fn gen_plan(seed: u64, backend: Backend, thorough: bool) -> WirePlan {
         allow_restart: false,
         allow_seed: false,
         foreign_lock_pct: 0,
+        allow_empty_payload: false,
     };
     let setup = seq::gen_ops(&mut r, &p, n_clients, &cfg, page);
     let allow = match r.weighted(&[30, 12, 30, 28]) {
@@ -485,6 +496,10 @@ fn build(plan: &WirePlan, w: &World, op: &WireOp, cur_allow: &Option<HashSet<Uui
             cid_bad = true;
             headers.push((h, vec![0xff, 0xfe, 0x80, 0x81]))
         }
+        CidForm::Nil => {
+            effective = Some(Uuid::nil());
+            headers.push((h, Uuid::nil().to_string().into_bytes()))
+        }
         CidForm::Related(k) => {
             let b = *cid.as_bytes();
             let mut o = b;
@@ -633,6 +648,19 @@ fn build(plan: &WirePlan, w: &World, op: &WireOp, cur_allow: &Option<HashSet<Uui
         };
         headers.push(("Content-Encoding".into(), v.to_vec()));
     }
+    if op.extra != 0 && protocol_route {
+        worse(Class::Ambiguous);
+        let tag_id = w.model.client(&cid).map(|c| c.snap.as_ref().map(|s| s.version).unwrap_or(c.latest())).unwrap_or(Uuid::nil());
+        let (n, v): (&str, String) = match op.extra {
+            1 => ("If-None-Match", "*".into()),
+            2 => ("If-None-Match", format!("\"{tag_id}\"")),
+            3 => ("If-None-Match", format!("W/\"{tag_id}\"")),
+            4 => ("If-Modified-Since", "Fri, 01 Jan 2100 00:00:00 GMT".into()),
+            5 => ("Range", "bytes=0-0".into()),
+            _ => ("If-Match", "\"x\"".into()),
+        };
+        headers.push((n.into(), v.into_bytes()));
+    }
     // body
     let mut chunks: Vec<Bytes> = vec![];
     let mut fail_after = None;
@@ -731,7 +759,7 @@ fn build(plan: &WirePlan, w: &World, op: &WireOp, cur_allow: &Option<HashSet<Uui
             chunks.truncate(1);
         }
     }
-    let label = format!("{} {} cid={:?} pid={:?} ct={:?}{} body={}", method, if path.len() > 80 { &path[..80] } else { &path }, op.cid, op.pid, op.ct, if op.enc != 0 { format!(" content-encoding#{}", op.enc) } else { String::new() }, match &op.body {
+    let label = format!("{} {} cid={:?} pid={:?} ct={:?}{} body={}", method, if path.len() > 80 { &path[..80] } else { &path }, op.cid, op.pid, op.ct, if op.enc != 0 { format!(" content-encoding#{}", op.enc) } else if op.extra != 0 { format!(" extra-header#{}", op.extra) } else { String::new() }, match &op.body {
         BodyForm::Normal(p, _) => format!("{}B", p.len),
         BodyForm::Limit(d, _) => format!("limit{d:+}"),
         o => format!("{o:?}").chars().take(24).collect(),
@@ -816,6 +844,33 @@ pub fn exec(plan: &WirePlan) -> RunOut {
         // a derived id is some other (never seen) client: with a list it must be refused; without a
         // list it is simply an unknown client, which this executor does not model -> skip
         if b.effective.is_some() && cur_allow.is_none() {
+            // ... except the all-zero id on the routes that create nothing: it names a client the
+            // server has never seen, and every well-formed client id is served
+            if matches!(op.cid, CidForm::Nil) && b.class == Class::WellFormed && matches!(op.route, Route::GetChild | Route::GetSnapshot | Route::AddSnapshot) {
+                let raw: RawResp = match w.app.as_ref().unwrap().send(b.wire.clone()) {
+                    Ok(r) => r,
+                    Err(p) => {
+                        out.violations.push(viol(&["C15"], "wire.panic", format!("{} made the handler panic: {p}", b.label)));
+                        break;
+                    }
+                };
+                w.steps += 1;
+                out.bump("probe.wire.all_zero_client_id");
+                if let Some(m) = crate::http::check_cache_control(&b.label, &raw) {
+                    out.violations.push(m.into());
+                }
+                if raw.status != 404 {
+                    out.violations.push(viol(&["C14", "C16", "C15"], "wire.all_zero_client_id_not_served", format!("{} names a well-formed client id the server has never seen: answered {} (want 404)", b.label, raw.status)));
+                }
+                match w.take_projection() {
+                    Ok(p) => {
+                        if let Some(d) = proj_diff(&w.proj, &p) {
+                            out.violations.push(viol(&["C18", "C09"], "wire.refused_changed_state", format!("{} changed state: {d}", b.label)));
+                        }
+                    }
+                    Err(e) => out.violations.push(viol(&["C15", "C13"], "state.unreadable", format!("{e:#}"))),
+                }
+            }
             continue;
         }
         let is_listed = listed(&b.effective.unwrap_or(cid), &cur_allow);
@@ -981,7 +1036,8 @@ pub fn exec(plan: &WirePlan) -> RunOut {
                 if !served_ok && out.violations.len() == nviol_before {
                     if b.req.is_some() || protocol_route {
                         if !is4xx {
-                            out.violations.push(viol(&["C15"], "wire.ambiguous_neither", format!("{} answered {}: neither a refusal nor the model's outcome", b.label, raw.status)));
+                            let props: &[&str] = if op.extra != 0 { &["C15", "C14"] } else { &["C15"] };
+                            out.violations.push(viol(props, "wire.ambiguous_neither", format!("{} answered {}: neither a refusal nor the model's outcome", b.label, raw.status)));
                         } else if matches!(op.route, Route::GetChild)
                             && matches!(raw.status, 404 | 410)
                             && matches!(op.pid, PidForm::Braced | PidForm::Urn | PidForm::Simple | PidForm::Upper)
